@@ -212,6 +212,7 @@ inductive Obs where
   | text (s : Text)
   | body (ty : Int) (b : Bytes)
   | head (ty : Int) (tag : Nat)
+  | headNeg (ty : Int) (tag : Int)        -- implementation-only: a negative tag (the model never produces it)
   | reply (r : Reply)
   | err (e : Err)
   deriving Repr, DecidableEq
@@ -292,6 +293,7 @@ def checkRdhdr (idx : Nat) (ty : Int) (tag : Nat) : Obs → Verdict
   | .head ty' tag' =>
     if ty' = ty ∧ tag' = tag then .ok
     else .fail "readHeader" [V.ofNat idx, .n ty, V.ofNat tag, .n ty', V.ofNat tag']
+  | .headNeg ty' tag' => .fail "readHeader" [V.ofNat idx, .n ty, V.ofNat tag, .n ty', .n tag']
   | .err e => .fail "readHeader" [V.ofNat idx, .n ty, V.ofNat tag, vErr e]
   | _ => .fail "bad-obs" [V.ofNat idx]
 
@@ -381,6 +383,7 @@ def encObs : Obs → V
   | .text s => .l [.a "text", V.ofNats s]
   | .body ty b => .l [.a "body", .n ty, V.ofBytes b]
   | .head ty tag => .l [.a "head", .n ty, V.ofNat tag]
+  | .headNeg ty tag => .l [.a "head", .n ty, .n tag]
   | .reply (.ret p) => .l [.a "ret", V.ofBytes p]
   | .reply (.srvErr m) => .l [.a "srverr", V.ofBytes m]
   | .err e => .l [.a "err", vErr e]
@@ -388,7 +391,7 @@ def encObs : Obs → V
 def decObs : V → Option Obs
   | .l [.a "text", s] => do pure (.text (← s.natList?))
   | .l [.a "body", .n ty, b] => do pure (.body ty (← b.bytes?))
-  | .l [.a "head", .n ty, tag] => do pure (.head ty (← tag.nat?))
+  | .l [.a "head", .n ty, .n tag] => if tag < 0 then some (.headNeg ty tag) else some (.head ty tag.toNat)
   | .l [.a "ret", p] => do pure (.reply (.ret (← p.bytes?)))
   | .l [.a "srverr", m] => do pure (.reply (.srvErr (← m.bytes?)))
   | .l [.a "err", e] => do pure (.err (← decErr e))
